@@ -157,20 +157,97 @@ pub proof fn lemma_enc_ascii_printable(bs: Seq<u8>) ensures all_printable(enc_as
     }
 }
 
+/// what EscapedRule::make stores for the expression t (contract [C04.escaped.make.ok]): a trailing ` (no-eol)` of the expression is
+/// ignored (Cram compatibility), the rest is decoded
+pub open spec fn read_back(t: Seq<char>) -> Option<Seq<u8>> { decode(without_noeol(t)) }
+
+// ------------------------------------------------------------------ the ` (no-eol)` ending (keep_trailing_no_eol / protect)
+/// a protected text does not end in ` (no-eol)`: the reader takes it whole
+pub proof fn lemma_protect_read_back(t: Seq<char>) ensures without_noeol(protect(t)) == protect(t), read_back(protect(t)) == decode(protect(t)) {
+    let p = protect(t);
+    if is_suffix_of(m_noeol(), t) {
+        assert(p.last() == '9');
+        if is_suffix_of(m_noeol(), p) { assert(p.subrange(p.len() - 9, p.len() as int)[8] == p[p.len() - 1]); assert(m_noeol()[8] == ')'); assert(false); }
+    }
+}
+pub proof fn lemma_x29_unesc(s: Seq<char>) ensures unesc(x29() + s) == x29() + unesc(s) {
+    let t = x29() + s;
+    assert(t[0] == '\\' && t[1] == 'x' && t.len() >= 2);
+    let t2 = t.skip(2); assert(t2 =~= seq!['2', '9'] + s);
+    assert(unesc(t) == unesc_pair('x') + unesc(t2));
+    assert(t2[0] == '2'); let t3 = t2.skip(1); assert(t3 =~= seq!['9'] + s);
+    assert(unesc(t2) == seq!['2'] + unesc(t3));
+    assert(t3[0] == '9'); assert(t3.skip(1) =~= s);
+    assert(unesc(t3) == seq!['9'] + unesc(s));
+    assert(unesc(t) =~= x29() + unesc(s));
+}
+pub proof fn lemma_x29_resolve(r: Seq<char>) ensures opt_eq(resolve(x29() + r), prepend(seq![41u8], resolve(r))) {
+    let t = x29() + r;
+    assert(t[0] == '\\' && t[1] == 'x' && t.len() >= 4); assert(t.skip(4) =~= r);
+    assert(seq![t[2], t[3]] =~= hex2(41u8));
+    axiom_radix_hex2(41u8);
+    assert(resolve(t) == prepend(seq![41u8], resolve(r)));
+}
+/// only the token of `)` ends in `)`
+pub proof fn lemma_enc_a_last(b: u8) ensures enc_a(b).len() >= 1, enc_a(b).last() == ')' ==> b == 41u8 && enc_a(b) =~= seq![')'] {
+    lemma_hexdigit_plain(b as int / 16); lemma_hexdigit_plain(b as int % 16);
+    if !(b == 10 || b == 13 || b == 9 || b == 7 || b == 8 || b == 12 || b == 11 || b == 92) && !(0x20 <= b <= 0x7e) {
+        assert(enc_a(b).last() == hexdigit(b as int % 16));
+        assert(hexdigit(b as int % 16) != ')');
+    }
+}
+/// C11 (lossless, ascii mode) for the text as it is WRITTEN and READ BACK: EscapedRule::make recovers exactly the line
+pub proof fn lemma_roundtrip_ascii_protected(bs: Seq<u8>)
+    requires no_lf(bs),
+    ensures opt_eq(read_back(protect(enc_ascii(bs))), Some(bs)),
+{
+    let t = enc_ascii(bs);
+    lemma_protect_read_back(t);
+    if is_suffix_of(m_noeol(), t) {
+        assert(t.len() >= 9);
+        assert(t.subrange(t.len() - 9, t.len() as int)[8] == t[t.len() - 1]);
+        assert(t.last() == ')');
+        assert(bs.len() > 0);
+        let init = bs.drop_last(); let b = bs.last();
+        lemma_enc_a_last(b);
+        assert(t == enc_ascii(init) + enc_a(b));
+        assert(t.last() == enc_a(b).last());
+        assert(t.drop_last() =~= enc_ascii(init));
+        assert(no_lf(init)) by { assert forall|k: int| 0 <= k < init.len() implies init[k] != 10u8 by { assert(init[k] == bs[k]); } }
+        let e = Seq::<char>::empty();
+        lemma_all_unesc(init, x29());
+        lemma_x29_unesc(e);
+        assert(x29() + e =~= x29()); assert(unesc(e) =~= e);
+        assert(unesc(enc_ascii(init) + x29()) == u_all(init) + x29());
+        lemma_all_resolve(init, x29());
+        lemma_x29_resolve(e);
+        assert(init + seq![41u8] =~= bs);
+        assert(seq![41u8] + Seq::<u8>::empty() =~= seq![41u8]);
+    } else {
+        lemma_roundtrip_ascii(bs);
+    }
+}
+pub proof fn lemma_protect_printable(t: Seq<char>) requires all_printable(t) ensures all_printable(protect(t)) {
+    let p = protect(t);
+    assert forall|k: int| 0 <= k < p.len() implies printable_char(#[trigger] p[k]) by {
+        if is_suffix_of(m_noeol(), t) { if k < t.len() - 1 { assert(p[k] == t[k]); } else { assert(p[k] == x29()[k - (t.len() - 1)]); } }
+    }
+}
+
 // ------------------------------------------------------------------ what "the text scrut writes for a line" must satisfy
 pub open spec fn escaped_marker() -> Seq<char> { seq![' ', '(', 'e', 's', 'c', 'a', 'p', 'e', 'd', ')'] }
 /// either the text IS the line (an `equal` expectation: its UTF-8 bytes are the line's content), or it is `t (escaped)`
-/// where the escaped expression t decodes to exactly the line's content (so, by the EscapedRule contract, it matches the
-/// original line and no line with different content)
+/// where the escaped expression t is READ BACK (by EscapedRule::make) as exactly the line's content (so, by the EscapedRule
+/// contract, it matches the original line and no line with different content)
 pub open spec fn written_for(text: Seq<char>, content: Seq<u8>) -> bool {
     encode_utf8(text) == content
-    || exists|t: Seq<char>| #[trigger] (t + escaped_marker()) == text && opt_eq(decode(t), Some(content))
+    || exists|t: Seq<char>| #[trigger] (t + escaped_marker()) == text && opt_eq(read_back(t), Some(content))
 }
 /// the same, with the case named: printable content is written as itself (its lossy text, whose UTF-8 bytes are the content);
 /// anything else as an escaped expression that decodes to the content, followed by the marker
 pub open spec fn exp_form(text: Seq<char>, content: Seq<u8>, unprintable: bool) -> bool {
     (!unprintable ==> text == lossy(content) && encode_utf8(text) == content)
-    && (unprintable ==> exists|t: Seq<char>| #[trigger] (t + escaped_marker()) == text && (no_lf(content) ==> opt_eq(decode(t), Some(content))))
+    && (unprintable ==> exists|t: Seq<char>| #[trigger] (t + escaped_marker()) == text && (no_lf(content) ==> opt_eq(read_back(t), Some(content))))
 }
 pub proof fn lemma_plain_is_line(bs: Seq<u8>)
     requires forall|k: int| 0 <= k < bs.len() ==> bs[k] < 0x80,
@@ -319,6 +396,76 @@ pub proof fn lemma_roundtrip_unicode(cs: Seq<char>)
     lemma_uall_resolve(cs, Seq::empty());
     assert(encode_utf8(cs) + Seq::<u8>::empty() =~= encode_utf8(cs));
 }
+
+/// the UTF-8 encoding of a char ends in an ASCII byte only when the char is ASCII (continuation bytes are >= 0x80)
+/// (TRUSTED; validated exhaustively over all scalar values by `verif-replay axioms`)
+#[verifier::external_body]
+pub proof fn axiom_utf8_last_ascii(c: char) requires encode_utf8(seq![c]).len() > 0, encode_utf8(seq![c]).last() < 0x80 ensures (c as u32) < 0x80 {}
+/// only the token of `)` ends in `)` (unicode mode, doubling on)
+pub proof fn lemma_enc_u_char_last(c: char)
+    ensures enc_u_char(c, true).len() >= 1, enc_u_char(c, true).last() == ')' ==> c == ')' && enc_u_char(c, true) =~= seq![')'],
+{
+    if is_other(c) {
+        let bytes = encode_utf8(seq![c]);
+        axiom_other_bytes_unprintable(c);
+        assert(bytes.len() > 0);
+        assert(enc_u_char(c, true) == enc_ascii(bytes));
+        let init = bytes.drop_last(); let b = bytes.last();
+        lemma_enc_a_last(b);
+        assert(enc_ascii(bytes) == enc_ascii(init) + enc_a(b));
+        assert(enc_ascii(bytes).last() == enc_a(b).last());
+        if enc_a(b).last() == ')' {
+            axiom_utf8_last_ascii(c);
+            lemma_ascii_utf8(c);
+            assert(c as u8 == 41u8);
+            assert(printable_char(c));
+            axiom_printable_not_other(c);
+            assert(false);
+        }
+    }
+}
+/// C11 (lossless, unicode mode) for the text as it is WRITTEN and READ BACK
+pub proof fn lemma_roundtrip_unicode_protected(cs: Seq<char>)
+    requires no_lf_char(cs),
+    ensures opt_eq(read_back(protect(enc_u(cs, true))), Some(encode_utf8(cs))),
+{
+    let t = enc_u(cs, true);
+    lemma_protect_read_back(t);
+    if is_suffix_of(m_noeol(), t) {
+        assert(t.len() >= 9);
+        assert(t.subrange(t.len() - 9, t.len() as int)[8] == t[t.len() - 1]);
+        assert(t.last() == ')');
+        assert(cs.len() > 0);
+        let init = cs.drop_last(); let c = cs.last();
+        lemma_enc_u_char_last(c);
+        assert(t == enc_u(init, true) + enc_u_char(c, true));
+        assert(t.last() == enc_u_char(c, true).last());
+        assert(t.drop_last() =~= enc_u(init, true));
+        lemma_no_lf_char_init(cs);
+        let e = Seq::<char>::empty();
+        lemma_uall_unesc(init, x29());
+        lemma_x29_unesc(e);
+        assert(x29() + e =~= x29()); assert(unesc(e) =~= e);
+        assert(unesc(enc_u(init, true) + x29()) == v_all(init) + x29());
+        lemma_uall_resolve(init, x29());
+        lemma_x29_resolve(e);
+        encode_utf8_concat(init, seq![c]);
+        assert(init + seq![c] =~= cs);
+        lemma_ascii_utf8(c);
+        assert(encode_utf8(init) + seq![41u8] =~= encode_utf8(cs));
+        assert(seq![41u8] + Seq::<u8>::empty() =~= seq![41u8]);
+    } else {
+        lemma_roundtrip_unicode(cs);
+    }
+}
+pub proof fn lemma_protect_none_other(t: Seq<char>) requires none_other(t) ensures none_other(protect(t)) {
+    let p = protect(t);
+    assert forall|k: int| 0 <= k < p.len() implies !is_other(#[trigger] p[k]) by {
+        if is_suffix_of(m_noeol(), t) {
+            if k < t.len() - 1 { assert(p[k] == t[k]); } else { let c = x29()[k - (t.len() - 1)]; assert(p[k] == c); assert(printable_char(c)); axiom_printable_not_other(c); }
+        }
+    }
+}
 /// nothing written in unicode mode is a control / format / unassigned code point
 pub proof fn lemma_enc_u_none_other(cs: Seq<char>, dbl: bool) ensures none_other(enc_u(cs, dbl)) decreases cs.len() {
     if cs.len() > 0 {
@@ -402,9 +549,9 @@ pub proof fn lemma_unicode_expectation(bs: Seq<u8>, escaped: Seq<char>, encoded:
         valid_utf8(bs) ==> exists|cs: Seq<char>| #[trigger] encode_utf8(cs) == bs && escaped == enc_u(cs, any_other(cs)),
         !valid_utf8(bs) ==> escaped == printable_ascii_of(bs),
     ensures
-        none_other(if encoded == escaped { encoded } else { escaped + escaped_marker() }),
-        no_lf(bs) ==> written_for(if encoded == escaped { encoded } else { escaped + escaped_marker() }, bs),
-        exp_form(if encoded == escaped { encoded } else { escaped + escaped_marker() }, bs, unp_unicode(bs)),
+        none_other(if encoded == escaped { encoded } else { protect(escaped) + escaped_marker() }),
+        no_lf(bs) ==> written_for(if encoded == escaped { encoded } else { protect(escaped) + escaped_marker() }, bs),
+        exp_form(if encoded == escaped { encoded } else { protect(escaped) + escaped_marker() }, bs, unp_unicode(bs)),
 {
     if valid_utf8(bs) {
         let cs = choose|cs: Seq<char>| #[trigger] encode_utf8(cs) == bs && escaped == enc_u(cs, any_other(cs));
@@ -414,7 +561,8 @@ pub proof fn lemma_unicode_expectation(bs: Seq<u8>, escaped: Seq<char>, encoded:
         assert forall|cs2: Seq<char>| encode_utf8(cs2) == bs implies cs2 == cs by { encode_utf8_decode_utf8(cs2); encode_utf8_decode_utf8(cs); }
         assert(unp_unicode(bs) == any_other(cs));
         lemma_enc_u_none_other(cs, any_other(cs));
-        lemma_marker_none_other(escaped);
+        lemma_protect_none_other(escaped);
+        lemma_marker_none_other(protect(escaped));
         if !any_other(cs) {
             lemma_enc_u_identity(cs);
             assert(escaped == cs);
@@ -422,7 +570,7 @@ pub proof fn lemma_unicode_expectation(bs: Seq<u8>, escaped: Seq<char>, encoded:
             // the plain text contains an "other" char, the escaped one does not: they differ
             let k = choose|k: int| 0 <= k < cs.len() && is_other(#[trigger] cs[k]);
             if encoded == escaped { assert(!is_other(escaped[k])); assert(false); }
-            if no_lf(bs) { lemma_lf_chars(cs); lemma_roundtrip_unicode(cs); }
+            if no_lf(bs) { lemma_lf_chars(cs); lemma_roundtrip_unicode_protected(cs); }
         }
     } else {
         // not UTF-8: some byte is >= 0x80, so the ascii escaper takes over
@@ -435,15 +583,16 @@ pub proof fn lemma_unicode_expectation(bs: Seq<u8>, escaped: Seq<char>, encoded:
         axiom_lossy_unprintable(bs);
         lemma_enc_ascii_printable(bs);
         lemma_printable_none_other(enc_ascii(bs));
-        lemma_marker_none_other(escaped);
-        if no_lf(bs) { lemma_roundtrip_ascii(bs); }
+        lemma_protect_none_other(escaped);
+        lemma_marker_none_other(protect(escaped));
+        if no_lf(bs) { lemma_roundtrip_ascii_protected(bs); }
     }
 }
 
 // ------------------------------------------------------------------ the expectation text as a function of the content (used by C09)
 /// escaped_expectation_ascii as a function of the content
 pub open spec fn exp_text_ascii(bs: Seq<u8>) -> Seq<char> {
-    if lossy(bs) == printable_ascii_of(bs) { lossy(bs) } else { printable_ascii_of(bs) + escaped_marker() }
+    if lossy(bs) == printable_ascii_of(bs) { lossy(bs) } else { protect(printable_ascii_of(bs)) + escaped_marker() }
 }
 /// escaped_printable_unicode as a function of the bytes
 pub open spec fn printable_unicode_of(bs: Seq<u8>) -> Seq<char> {
@@ -451,7 +600,7 @@ pub open spec fn printable_unicode_of(bs: Seq<u8>) -> Seq<char> {
 }
 /// escaped_expectation_unicode as a function of the content
 pub open spec fn exp_text_unicode(bs: Seq<u8>) -> Seq<char> {
-    if lossy(bs) == printable_unicode_of(bs) { lossy(bs) } else { printable_unicode_of(bs) + escaped_marker() }
+    if lossy(bs) == printable_unicode_of(bs) { lossy(bs) } else { protect(printable_unicode_of(bs)) + escaped_marker() }
 }
 /// what escaped_printable_unicode returns IS printable_unicode_of (the decoding is unique)
 pub proof fn lemma_printable_unicode_of(bs: Seq<u8>, r: Seq<char>)
@@ -471,8 +620,8 @@ pub proof fn lemma_exp_text_ascii(bs: Seq<u8>)
     lemma_enc_ascii_printable(bs);
     if exists_unprintable(bs) {
         axiom_lossy_unprintable(bs);
-        if no_lf(bs) { lemma_roundtrip_ascii(bs); }
-        assert(exp_text_ascii(bs) == enc_ascii(bs) + escaped_marker());
+        if no_lf(bs) { lemma_roundtrip_ascii_protected(bs); }
+        assert(exp_text_ascii(bs) == protect(enc_ascii(bs)) + escaped_marker());
     } else {
         assert forall|k: int| 0 <= k < bs.len() implies bs[k] < 0x80 by { assert(printable_ascii(bs[k])); }
         axiom_lossy_ascii(bs);
